@@ -43,6 +43,10 @@ var c10Polluters = []jsProg{
 	{"pollute-then-bad-return", `leak4 = 1; Array.prototype.p3 = 1; return 7;`},
 	{"define-property", `Object.defineProperty(Object.prototype, "sneaky", {value: 1, enumerable: false}); return {};`},
 	{"freeze-env", `Object.freeze(_.bindings); Object.freeze(_); return {};`},
+	// what the environment's functions hand back belongs to this execution: editing it must stay here
+	{"out-result-edited", `var r = _.out({m: 1}); if (r && typeof r == "object") { r.m = 2; r.leak = {a: 1}; } var r2 = _.out({m: 1, l: [1, {z: 1}]}); if (r2 && r2.l) { r2.l[1].z = 99; r2.l.push("more"); } return {};`},
+	{"out-result-edited-then-throw", `var r = _.out({m: 1}); if (r && typeof r == "object") { r.m = 3; delete r.m; r.gone = true; } throw "after editing";`},
+	{"match-result-edited", `if (_.match) { var r = _.match({"a": "?x"}, {"a": {"k": 1}}, {}); if (r && r[0] && r[0]["?x"]) { r[0]["?x"].k = 2; r[0].extra = 1; r.push({"?y": 1}); } } return {};`},
 }
 
 var c10Probes = []jsProg{
@@ -53,6 +57,8 @@ var c10Probes = []jsProg{
 	{"bindings", `return {bs: _.bindings};`},
 	{"builtins", `return {json: JSON.stringify({a: 1}), floor: Math.floor(1.5)};`},
 	{"env-writable", `_.bindings.w = 1; _.marker = 2; return {w: _.bindings.w, marker: _.marker};`},
+	{"out-nested", `var r = _.out({m: 1, l: [1, {z: 1}]}); var r1 = _.out({m: 1}); return {echo: r, echo1: r1};`},
+	{"match", `return {r: _.match ? _.match({"a": "?x"}, {"a": {"k": 1}}, {}) : "no match function"};`},
 }
 
 // self-probing programs: executing the same compiled source twice, the second run must see nothing of the first
@@ -64,6 +70,7 @@ var c10Self = []jsProg{
 	{"self-props-top", `var was = _.props.selfmark === undefined; _.props.selfmark = 1; return {was: was};`},
 	{"self-permanent-value", `var was = _.bindings["cfg!"].limit; _.bindings["cfg!"].limit = 0; _.bindings["list!"].push("more"); return {was: was, n: _.bindings["list!"].length};`},
 	{"self-bindings-nested", `var was = _.bindings.o.x; _.bindings.o.x = 99; return {was: was};`},
+	{"self-out-result", `var r = _.out({self: [1, {z: 1}]}); var was = JSON.stringify(r); if (r && r.self) { r.self[1].z = 2; r.mark = 1; } return {was: was};`},
 }
 
 func c10Bindings() match.Bindings {
@@ -173,6 +180,7 @@ func c10Run(interp *ecmascript.Interpreter, compiled map[string]interface{}, cs 
 // C10: ECMAScript isolation (sequential half).
 func C10(c *vh.Ctx) {
 	interp := ecmascript.NewInterpreter()
+	interp.Extended = true // as the hosts configure it: the environment also has _.match and friends
 	compiled := map[string]interface{}{}
 	for _, l := range [][]jsProg{c10Polluters, c10Probes, c10Self} {
 		for _, p := range l {
@@ -218,7 +226,7 @@ func C10(c *vh.Ctx) {
 		}
 		return
 	}
-	c.Rule(fmt.Sprintf("%d polluting scripts (in-place mutation of bindings at depth 1-3 (also of the values of permanent '!' bindings), of nested and top-level props, implicit and this-globals, Object/Array/String prototypes, JSON/Math built-ins, replacing or freezing members of the environment object, polluting then failing) x %d probes + %d self-probing scripts; every ordered pair (polluter, probe), every triple (polluter, polluter, probe), and every self-probing script twice; through Interpreter.Exec with a shared compiled program and through Spec.Walk; with fresh and with shared caller bindings/props objects; pairs and self-probes also with nil and with empty step properties; oracle: the probe's bindings and emissions equal its solo result, the caller's bindings and props are snapshot-equal afterwards. non-trivial = every sequence.", len(c10Polluters), len(c10Probes), len(c10Self)))
+	c.Rule(fmt.Sprintf("%d polluting scripts (in-place mutation of bindings at depth 1-3 (also of the values of permanent '!' bindings), of nested and top-level props, implicit and this-globals, Object/Array/String prototypes, JSON/Math built-ins, replacing or freezing members of the environment object, editing what _.out and _.match returned, polluting then failing) x %d probes + %d self-probing scripts; every ordered pair (polluter, probe), every triple (polluter, polluter, probe), and every self-probing script twice; through Interpreter.Exec with a shared compiled program and through Spec.Walk; with fresh and with shared caller bindings/props objects; pairs and self-probes also with nil and with empty step properties; oracle: the probe's bindings and emissions equal its solo result, the caller's bindings and props are snapshot-equal afterwards. non-trivial = every sequence.", len(c10Polluters), len(c10Probes), len(c10Self)))
 	var idx uint64
 	// the caller supplies no step properties (nil) or empty ones: pairs and self-probes
 	for _, via := range []string{"exec", "walk"} {
